@@ -13,7 +13,7 @@ Open Scope Z_scope.
 (* every op other than a main-consumer record: all emitted events are recovery-flagged and the k-th limiter wait of
    the op happened when k-1 events had been emitted, one wait per event *)
 Theorem C19_one_wait_per_emit : forall cfg s op,
-  is_main op = false ->
+  is_main op = false -> is_reccrash op = false ->
   (forall e, In e (o_emits (snd (rstep cfg s op))) -> snd e = true)
   /\ o_waits (snd (rstep cfg s op)) = zrange 0 (length (o_emits (snd (rstep cfg s op)))).
 Proof. exact rstep_flags_waits. Qed.
@@ -24,10 +24,22 @@ Theorem C19_main_never_waits : forall cfg s p o,
   (s, {| o_emits := [(p, o, false)]; o_calls := []; o_sent := []; o_err := false; o_acks := 0; o_waits := [] |}).
 Proof. exact mainrec_out. Qed.
 
-(* over any history: as many waits as recovered events *)
+(* an owner that dies while handling a record emits nothing; at most the wait of the record it was about to emit
+   (it is blocked on the send) has been taken *)
+Theorem C19_stop_while_blocked : forall cfg s p,
+  o_emits (snd (rec_crash cfg s p)) = [] /\ (o_waits (snd (rec_crash cfg s p)) = [] \/ o_waits (snd (rec_crash cfg s p)) = [0]).
+Proof. exact rec_crash_out. Qed.
+
+(* over any history without such a stop: as many waits as recovered events; in general at most one more per stop *)
 Theorem C19_waits_equal_recovered : forall cfg ops s,
+  forallb (fun op => negb (is_reccrash op)) ops = true ->
   total_waits (rrun cfg s ops) = total_recovered (rrun cfg s ops).
 Proof. exact run_waits. Qed.
+
+Theorem C19_waits_bounds : forall cfg ops s,
+  (total_recovered (rrun cfg s ops) <= total_waits (rrun cfg s ops)
+   <= total_recovered (rrun cfg s ops) + length (filter is_reccrash ops))%nat.
+Proof. exact run_waits_bounds. Qed.
 
 (* ideal token bucket (rate r per den ticks, burst b, starting full): in ANY window [s, s+d] at most b + r*d/den
    emissions are admitted, whatever the emission times *)
@@ -57,6 +69,8 @@ Proof. vm_compute. split; reflexivity. Qed.
 
 Print Assumptions C19_one_wait_per_emit.
 Print Assumptions C19_main_never_waits.
+Print Assumptions C19_stop_while_blocked.
 Print Assumptions C19_waits_equal_recovered.
+Print Assumptions C19_waits_bounds.
 Print Assumptions C19_bucket_bound.
 Print Assumptions C19_spec_sound.
